@@ -26,13 +26,13 @@ def watched_codes():
     import lib_guesser.status_report as sr
     m = [cs.CrackingSession.run, cs.CrackingSession._save_session, pg.PcfgGrammar.omen_generate_guesses,
          pg.PcfgGrammar._recursive_guesses, pg.PcfgGrammar.restore_omen]
-    k = [cs.keypress, sr.StatusReport.print_status, pg.PcfgGrammar.get_status]
+    k = [cs.keypress, sr.StatusReport.print_status, pg.PcfgGrammar.get_status] + ([sr.StatusReport.print_help] if hasattr(sr.StatusReport, 'print_help') else [])
     return [f.__code__ for f in m], [f.__code__ for f in k], cs
 
 class Step:
     """One delivery: at the generation thread's p-th yield point hand `action` to the keypress thread.
-    hold: None (let it finish), an int n (park it at its n-th own yield point after the delivery) or 'after_flag' (park it right after
-    `pcfg.should_exit = True`, i.e. flag set but thread still alive); release: generation-thread yield point at which a parked thread continues."""
+    hold: None (let it finish), an int n (park it at its n-th own yield point after the delivery), 'in:<function>' (park it at its first statement inside
+    that watched function, e.g. 'in:print_help') or 'after_flag' (park it right after `pcfg.should_exit = True`, i.e. flag set but thread still alive); release: generation-thread yield point at which a parked thread continues."""
     def __init__(self, p, action, hold=None, release=None):
         self.p, self.action, self.hold, self.release = p, action, hold, release
     def as_list(self):
@@ -135,6 +135,7 @@ class Scheduler:
             if cur is not None and self.k_idx_after is not None and not self.k_parked.is_set():
                 self.k_idx_after += 1
                 hit = (isinstance(cur.hold, int) and self.k_idx_after == cur.hold) or \
+                      (isinstance(cur.hold, str) and cur.hold.startswith('in:') and code.co_name == cur.hold[3:]) or \
                       (cur.hold == 'after_flag' and code.co_name == 'keypress' and self.flag_line is not None and line > self.flag_line
                        and getattr(self, '_saw_flag_line', False))
                 if cur.hold == 'after_flag' and code.co_name == 'keypress' and line == self.flag_line:
